@@ -234,6 +234,46 @@ impl T {
     }
 }
 
+/// Variables a raw observation contains beyond the program's own (`Var(k)`, k ≥ 1000: created by the code
+/// under test; `Any(i)`: `_` pattern variables, shared by identity within one observation) renamed to hidden
+/// program variables `nvars, nvars+1, …` so that a state can be re-created by unification WITH its sharing.
+/// Returns the renamed terms and the number of hidden variables added.
+pub fn rename_hidden(terms: &[T], nvars: usize) -> (Vec<T>, usize) {
+    fn collect(t: &T, extra: &mut Vec<(bool, usize)>) {
+        match t {
+            T::Var(k) if *k >= 1000 => {
+                if !extra.contains(&(false, *k)) {
+                    extra.push((false, *k))
+                }
+            }
+            T::Any(k) => {
+                if !extra.contains(&(true, *k)) {
+                    extra.push((true, *k))
+                }
+            }
+            T::Cons(h, tl) => {
+                collect(h, extra);
+                collect(tl, extra)
+            }
+            T::Comp(_, a) => a.iter().for_each(|x| collect(x, extra)),
+            _ => {}
+        }
+    }
+    let mut extra: Vec<(bool, usize)> = vec![];
+    terms.iter().for_each(|t| collect(t, &mut extra));
+    let out = terms
+        .iter()
+        .map(|t| {
+            t.subst(&|x| match x {
+                T::Var(k) if *k >= 1000 => Some(T::Var(nvars + extra.iter().position(|e| *e == (false, *k)).unwrap())),
+                T::Any(k) => Some(T::Var(nvars + extra.iter().position(|e| *e == (true, *k)).unwrap())),
+                _ => None,
+            })
+        })
+        .collect();
+    (out, extra.len())
+}
+
 /// A table of real logic variables for one case.
 pub struct Vars {
     pub v: Vec<LT>,
